@@ -37,6 +37,7 @@ pub ghost struct PS {
     pub n_sleep: nat,             // calls of sleep so far
     pub kills: Seq<(u32, i32)>,   // every kill(pid, sig) issued so far
     pub wait_deadline: Option<nat>,   // deadline of the wait_timeout in progress (ghost; set by begin_wait)
+    pub fresh: bool,                  // no sleep has happened since the last status check
 }
 pub tracked struct World { pub ghost s: PS }
 
@@ -65,7 +66,7 @@ pub fn thread_sleep(d: Duration, Tracked(w): Tracked<&mut World>)
         old(w).s.wait_deadline.is_some() ==> old(w).s.now + d.ns <= old(w).s.wait_deadline.unwrap(),   // C11: never sleeps past the deadline //[C11]
         d.ns > 0,                                                                // C11: a zero sleep would be a busy wait //[C11]
     ensures
-        final(w).s == (PS { now: final(w).s.now, kernel: final(w).s.kernel, n_sleep: old(w).s.n_sleep + 1, ..old(w).s }),
+        final(w).s == (PS { now: final(w).s.now, kernel: final(w).s.kernel, n_sleep: old(w).s.n_sleep + 1, fresh: false, ..old(w).s }),
         final(w).s.now >= old(w).s.now + d.ns, clock_ok(final(w).s),
         kernel_step(old(w).s.kernel, final(w).s.kernel),
 { unimplemented!() }
@@ -101,7 +102,7 @@ pub mod posix {
             final(w).s.n_sleep == old(w).s.n_sleep, final(w).s.wait_deadline == old(w).s.wait_deadline,
             final(w).s.n_waitpid == old(w).s.n_waitpid + 1,
             final(w).s.n_blocking == old(w).s.n_blocking + (if flags == 0 { 1nat } else { 0nat }),
-            final(w).s.now >= old(w).s.now, clock_ok(final(w).s),
+            final(w).s.now >= old(w).s.now, clock_ok(final(w).s), final(w).s.fresh,
             match r {
                 // the child's status: only once it has terminated, and it is the real one; this call has reaped it
                 Ok((p, st)) => if p == pid { !(old(w).s.kernel is Reaped) && !(old(w).s.kernel is Gone) && final(w).s.kernel is Reaped && st == old(w).s.fate && proper(st) && final(w).s.observed }
